@@ -145,8 +145,8 @@ def build_unit(u, wd, defs):
                 raise Undecided("loop fingerprint mismatch in %s: %d loops, contracts for %d"
                                 % (name, have[name], exp))
         cmd += ["--loop-contracts-file", lf]
-        if u.get("uf_in_invariants"):
-            cmd += ["--disable-loop-contracts-side-effect-check"]
+        # loop invariants may call pure helper functions (inv_*, dec_ptr, uninterpreted spec functions)
+        cmd += ["--disable-loop-contracts-side-effect-check"]
     cmd += ["--no-malloc-may-fail", "--dfcc", h]
     for e in u.get("enforce", []):
         cmd += ["--enforce-contract", e]
@@ -169,6 +169,8 @@ def build_unit(u, wd, defs):
 
 def cbmc_flags(u, tier):
     fl = list(CHECK_FLAGS)
+    if u.get("no_overflow_check"):
+        fl = [f for f in fl if f != "--signed-overflow-check"] + ["--no-signed-overflow-check"]
     if tier == "thorough":
         fl += THOROUGH_FLAGS
     if u.get("unwind") is not None:
